@@ -98,7 +98,7 @@ def count_eval_statements(code):
 
 
 def line_statements(text):
-    """Statements of a raw string without backticks/parentheses: non-blank lines after comment stripping."""
+    """Statements of a raw string without fences/parentheses: non-blank lines after comment stripping."""
     out = []
     for line in text.splitlines():
         h = line.find('#')
@@ -233,12 +233,14 @@ def check_string(case):
     text = case['s']
     res = Result(nontrivial=is_nontrivial(text), classes=['raw-string'])
     expect = None
-    if '`' not in text and '(' not in text and ')' not in text:
+    if '(' not in text and ')' not in text and not any(ln.startswith('```') for ln in line_statements(text)):
+        # (backticks elsewhere than at the start of a line do not open a fenced block: the statements are still the lines)
         lines = line_statements(text)
         lhs = [ln.split('=', 1)[0].replace(' ', '') for ln in lines]
         if len(set(lhs)) == len(lhs):
             expect = len(lines)
-    judge(text, res, expect_statements=expect, cls='/reserved-name' if case.get('reserved') else '')
+    judge(text, res, expect_statements=expect,
+          cls='/reserved-name' if case.get('reserved') else '/jointly-invalid-blocks' if case.get('joint') else '')
     return res
 
 
@@ -275,6 +277,31 @@ def gen_method_context():
             yield {'s': f'```\n{blk}\n```'}
             yield {'s': f'Y = X\n```\n{blk}\n```'}
             yield {'s': f'```\n{blk}\n```\nY = X[-1] + {{a}}'}
+    return gen
+
+
+def gen_jointly_invalid():
+    """Verbatim blocks that each compile inside a method but not one after the other (a name assigned in one block and
+    declared global / nonlocal in a later one)."""
+    def gen():
+        pairs = [('x = 1', 'global x'), ('x = t', 'nonlocal x'), ('t = 1', 'global t'), ('print(x)', 'global x'),
+                 ('global x', 'x = 1'), ('x = 1', 'x = 2'), ('import math', 'global math')]
+        for a, b in pairs:
+            yield {'s': f'```\n{a}\n```\n```\n{b}\n```', 'joint': True}
+            yield {'s': f'Y = X\n```\n{a}\n```\n```\n{b}\n```', 'joint': True}
+            yield {'s': f'```\n{a}\n```\nY = X[-1]\n```\n{b}\n```', 'joint': True}
+    return gen
+
+
+def gen_midline_backticks():
+    """Runs of backticks that are not at the start of a line (they cannot open a fenced block), in the middle of a script."""
+    def gen():
+        frags = ['```', '```1```', '`a```b`', '````', ' ```', 'x```', '`````', '``````', '```x', '`1` ```', '``` `1`', "'```'", '<```>', '{```}',
+                 '[```]', '```\n```', '```\n', '`x`', '``']
+        for f in frags:
+            for template in ('Y = 1\nX = {}\nZ = 2', 'Y = 1\nX{} = 2\nZ = 2', 'Y = 1 {}\nZ = 2', 'X = {}', 'Y = 1\nX = 2 {}',
+                             'Y = 1\n X = {}\nZ = 2', 'Y = 1 # {}\nZ = 2', 'Y = {}\n```\nx = 1\n```\nZ = 2'):
+                yield {'s': template.format(f)}
     return gen
 
 
@@ -517,6 +544,9 @@ def phases(tier):
               note='every attribute / property / method name of a model object as a variable, parameter or error name'),
         Phase('method-context-statements', check_string, gen=gen_method_context(), exhaustive=True, shards=2,
               note='verbatim statements that are valid only inside / only outside a function body'),
+        Phase('jointly-invalid-blocks', check_string, gen=gen_jointly_invalid(), exhaustive=True, shards=1,
+              note='blocks that compile inside a method one at a time but not in sequence'),
+        Phase('midline-backticks', check_string, gen=gen_midline_backticks(), exhaustive=True, shards=1),
         Phase('keyword-token-strings', check_string, gen=gen_keyword_tokens(4, 5) if quick else gen_keyword_tokens(5, 6), exhaustive=True),
         Phase('mutated-scripts', check_mutant, strategy=strat_mutants, examples=4000 if quick else 120000),
         Phase('valid-and-canary-scripts', check_valid, strategy=strat_valid, examples=1500 if quick else 30000),
